@@ -383,7 +383,7 @@ theorem C10_linker_idempotent_query (ops : List Op) (l : Linker) :
 
 /-- One PCM header, with ANY start offset, re-homed by add_song (PARTIAL: a wave bank satisfying C14's
 allocator invariant, which every bank reached from `Bank.new` by additions does; the former bound on
-the number of sample headers is gone with fix 8769e2a).  After a successful `addPcmh`: the wave bank holds a sample `h2` whose window
+the number of sample headers is gone with fix 8d72d11).  After a successful `addPcmh`: the wave bank holds a sample `h2` whose window
 `[position, position + size)` (its start offset is 0) shows exactly the bytes
 `pcmd[position₀ + start₀, position₀ + start₀ + size)` the song's header addressed; the patch entry's data-bank entry is `pcmHeader h2`, i.e. that address
 (with the pitch code of the song's rate) and that size; the invariant is kept and no byte of any
@@ -463,7 +463,7 @@ theorem C10_offset_window_regression :
 /-! ### whole histories -/
 
 /-- PCM regions and data entries over whole histories.  (Full since the repair of D11 — the playback
-window of a PCM header may have any start offset — and fix 8769e2a — no bound on the number of sample
+window of a PCM header may have any start offset — and fix 8d72d11 — no bound on the number of sample
 headers.)
 
 For EVERY list of operations (add-song of any byte strings under any names, queries) that a fresh
